@@ -209,7 +209,7 @@ def main():
     queue = list(ms)
 
     def worker(k):
-        wt = "/tmp/mut_%d" % k
+        wt = "/tmp/mut_%d_%d" % (os.getpid(), k)
         subprocess.call(["git", "-C", "/repo", "worktree", "remove", "--force", wt], stderr=subprocess.DEVNULL)
         subprocess.check_call(["git", "-C", "/repo", "worktree", "add", "-q", "--detach", wt, "HEAD"])
         try:
